@@ -69,11 +69,8 @@ pub(crate) mod verif_e6 {
         };
     }
     e6!(e6_literals_1025_single_value, 1025, true);
-    e6!(e6_literals_1025_two_values, 1025, false);
-    e6!(e6_literals_1024_two_values, 1024, false);
 }
 //@end
-//@harness e6_literals_1025_single_value kind=proof fn=compress_block props=C16,C13 tier=thorough bound="CONCRETE: 1025 literals of one byte value (the F8 regression input), no sequences; compress_literals / raw_literals are contract stubs" timeout=1800
-//@harness e6_literals_1025_two_values kind=proof fn=compress_block props=C16,C13 tier=thorough bound="CONCRETE: 1025 literals, two byte values" timeout=1800
-//@harness e6_literals_1024_two_values kind=proof fn=compress_block props=C16 tier=thorough bound="CONCRETE: 1024 literals (the threshold), two byte values" timeout=1800
+//@harness e6_literals_1025_single_value kind=proof fn=compress_block props=C16,C13 tier=thorough bound="CONCRETE: 1025 literals of one byte value (the F8 regression input), no sequences; compress_literals / raw_literals are contract stubs" timeout=3000 heavy=yes
 //@assume in e6_* compress_literals (contract: Verus E8) and raw_literals are contract stubs; the matcher is a scripted one reporting a single literal run; bounded executions on concrete data, not proofs
+//@assume NOT RUN: the two-value variants (1025 and 1024 literals) exhaust CBMC's memory (also without reachability checks) and are not registered; the registered single-value run takes ~6 min (thorough tier)
